@@ -785,6 +785,19 @@ def x_stdlib_misc(c):
     c.ret(Fresh(c.callee[4:]), pure=False)
 
 
+@ext("contextlib.nullcontext", "contextlib.redirect_stdout", "contextlib.redirect_stderr", "contextlib.suppress", "contextlib.ExitStack")
+def x_contextlib(c):
+    """context managers without failure modes of their own (suppress is expanded by the walker
+    when it is used directly in a with statement)"""
+    c.ret(Fresh("ctxmgr"), pure=False)
+
+
+@ext("concurrent.futures.ThreadPoolExecutor", "concurrent.futures.ProcessPoolExecutor", "concurrent.futures.thread.ThreadPoolExecutor")
+def x_executor(c):
+    t = Fresh("executor")
+    c.ret(t, ("type", t, frozenset(["obj:concurrent.futures.Executor"])), pure=False)
+
+
 @ext("re.match", "re.fullmatch", "re.search", "re.compile")
 def x_re(c):
     pat, subj = c.arg(0, "pattern"), c.arg(1, "string")
@@ -963,6 +976,35 @@ def m_regex(c):
     if subj is not None:
         c.need_type(subj, frozenset(["str"]), "TypeError", "regex match on a non-string")
     c.ret(None)
+
+
+@method("map")
+def m_executor_map(c):
+    """Executor.map(f, xs): f runs on every element in worker threads; an exception raised by f is
+    stored in the result iterator and re-raised only when that result is consumed - modelled as
+    `for x in xs: try: f(x) / except BaseException: pass` (the swallowing is visible as a caught
+    event at the call site); the result is an opaque iterator"""
+    import ast as _ast
+
+    ts = c.types(c.recv)
+    e = c.e
+    if ts is None or not ts <= {"obj:concurrent.futures.Executor"} or len(e.args) != 2 or e.keywords:
+        return unknown_callable(c, "method .map() of a value that is not known to be an executor")
+    var = _ast.Name(id="$map_item", ctx=_ast.Store())
+    call = _ast.Expr(value=_ast.Call(func=e.args[0], args=[_ast.Name(id="$map_item", ctx=_ast.Load())], keywords=[]))
+    h = _ast.ExceptHandler(type=_ast.Name(id="BaseException", ctx=_ast.Load()), name=None, body=[_ast.Pass()])
+    t = _ast.Try(body=[call], handlers=[h], orelse=[], finalbody=[])
+    loop = _ast.For(target=var, iter=e.args[1], body=[t], orelse=[])
+    for x in _ast.walk(loop):
+        if not hasattr(x, "lineno"):
+            _ast.copy_location(x, e)
+    _ast.fix_missing_locations(loop)
+    for s2, k2, p2 in c.w.stmt(loop, c.s):
+        if k2 == "fall":
+            s2.env.pop("$map_item", None)
+            c.outs.append((s2, "val", Fresh("executor_results")))
+        else:
+            c.outs.append((s2, k2, p2))
 
 
 @method("issuperset", "issubset", "isdisjoint")
